@@ -333,8 +333,6 @@ pub fn run(ctx: &Ctx) -> Report {
     let nseq = json!({"bounds": "one plain bank: length<=4 (quick) ; one bank: <=3 (quick) / <=4 (thorough); two or three banks: <=2 (quick) / <=3 (thorough)", "total": total});
     rep.extra("configurations", json!(ncfg));
     rep.extra("sequences_per_configuration", json!(nseq));
-    rep.local.states.extend(rep.local.nontrivial.iter().copied());
-    rep.local.transitions = rep.local.evaluations;
     rep.assumptions = vec!["only the direction illegal => rejected is demanded; rejecting a legal layout is C01's business".into(), "zero-size banks and zero-size items have no verdict".into()];
     rep.require_class("legal");
     rep.require_class("must-reject:bank output windows overlap");
